@@ -109,6 +109,16 @@ class Prop:
         out.append('G:%d:%d:%d:%d' % (micro(-40.0), micro(0.5), micro(40.0), micro(40.0)))
         out.append('G:%d:%d:%d:%d' % (micro(-40.0), micro(-40.0), micro(-0.001), micro(-0.001)))
         out.append('D:%d:%d:%d' % (micro(20.0), micro(20.0), 512 * 100 * UNIT))
+        # circles that miss / include a position by a fifth of a metre (a distance rounded to metres or to three
+        # decimals of a kilometre before the comparison decides these wrongly)
+        for la, lo in (rng.sample(pos, min(4, len(pos))) if pos else []):
+            ref = (round(la + rng.uniform(-0.2, 0.2), 3), round(lo + rng.uniform(-0.2, 0.2), 3))
+            if zone == 'polar':
+                ref = (round(max(-90.0, min(90.0, ref[0])), 3), ref[1])
+            d = great_circle_km(ref[0], ref[1], la, lo)
+            for delta in (0.0002, -0.0002):
+                if d + delta > 0:
+                    out.append('D:%d:%d:%d' % (micro(ref[0]), micro(ref[1]), int(round((d + delta) * 1e9))))
         if pos:
             la, lo = rng.choice(pos)
             out.append('D:%d:%d:0' % (micro(la), micro(lo)))              # strictness: distance 0 is not < 0
